@@ -12,4 +12,4 @@ for id in "$@"; do
   echo "== $id $tier rc=$rc: $(echo "$out" | grep -E '^VIOLATION|^  key|^OK|MACHINERY|check:' | head -6 | tr '\n' ' ' | cut -c1-400)"
 done
 git -C /repo worktree remove --force $wt
-rm -f /verif/harness/go.alt_tmp_seedwt* /verif/bin/vcheck-alt_tmp_seedwt*
+rm -f /verif/harness/go.alt_tmp_seedwt_$$_.* /verif/bin/vcheck-alt_tmp_seedwt_$$_
